@@ -2,7 +2,7 @@
 From Coq Require Import List Bool.
 Import ListNotations.
 From Mos Require Import Str Xml Outcome Seq Spec Elements Classify Messages Merge Collection Proto.
-From Mos.proofs Require Import Clean CollFacts ClassifyFacts Examples.
+From Mos.proofs Require Import XmlFacts Clean CollFacts ClassifyFacts Examples.
 
 (* Classifying any document either yields a class or raises UnknownMosFileType. *)
 Theorem C12_classify :
@@ -13,7 +13,7 @@ Print Assumptions C12_classify.
 (* Adding any schema-shaped message (required tags present; IDs blank, unknown, repeated or
    self-referential) of any of the 25 classes to any well-formed running order either
    succeeds or raises MosMergeError / MosCompletedMergeError.  The model contains the
-   built-in exception paths (AttributeError for a child without ID tag, IndexError,
+   built-in exception paths (AttributeError for a message without a required tag, IndexError,
    ValueError from _index_of, TypeError / ValueError from float()), so this is not true by
    omission.  timing_ok: evaluating ro.stories does not raise, i.e. the durations and
    roEdStart that are present are numeric / parseable (stories without timing are fine). *)
@@ -23,6 +23,15 @@ Theorem C12_merge :
   lib_outcome (r_err (add o ro k m)).
 Proof. exact add_clean. Qed.
 Print Assumptions C12_merge.
+
+(* wf_ro holds of every document with a roCreate element (find_child passes over children
+   without an ID tag, repair F28): the running order is unrestricted. *)
+Theorem C12_any_running_order :
+  forall (o : oracles) (ro : xml) (k : mclass) (m : xml),
+  rc_of ro <> None -> schema_ok k m = true -> timing_ok o ro ->
+  lib_outcome (r_err (add o ro k m)).
+Proof. intros o ro k m Hrc. apply add_clean. now apply wf_ro_iff. Qed.
+Print Assumptions C12_any_running_order.
 
 (* Consequently a non-strict collection merge of schema-shaped messages runs to the end. *)
 Theorem C12_nonstrict_terminates :
@@ -37,6 +46,6 @@ Print Assumptions C12_nonstrict_terminates.
 
 (* outside the guards the built-in exceptions are reachable in the model *)
 Theorem C12_guards_matter :
-  exists (o : oracles) ro k m, r_err (add o ro k m) = Some PyAttributeError.
+  exists (o : oracles) ro k m, wf_ro ro = true /\ r_err (add o ro k m) = Some PyAttributeError.
 Proof. exact ex_attribute_error. Qed.
 Print Assumptions C12_guards_matter.
